@@ -15,6 +15,23 @@ def validate(path):
                     env={"TRACE_FILE": path}, workers=1, name="val", timeout=3000, mem="3g")
 
 
+def args_table(d):
+    """Growth beyond the listed property: the decision table of src/args.py (HArgs) - TLC enumerates the configurations and checks the
+    design facts, the real parser + validate_args decide each one, HArgsTrace compares.  Informational: never part of the C17 verdict."""
+    g = tlc_must("HArgs", cfg(init="Init", next_="Next", invariants=["Sane"], constraints=["Emit"]), workers=1, name="gen_args")
+    cfgs = list({json.dumps(j, sort_keys=True): j for j in g.json}.values())
+    parts = chunks(cfgs, (len(cfgs) + 15) // 16)
+    files = [f for fl in parallel(lambda i: json.loads(run_driver("args_exec.py", [write_json(os.path.join(d, "ac%d.json" % i), parts[i]),
+                                                                                  os.path.join(d, "ar%d.json" % i)])), range(len(parts))) for f in fl]
+    vals = parallel(lambda f: tlc_must("HArgsTrace", cfg(init="TInit", next_="TNext", constraints=["Report"]), env={"TRACE_FILE": f},
+                                       workers=1, name="val_args"), files)
+    mism = [j for v in vals for j in v.json]
+    for j in mism[:5]:
+        print("INFO: HArgs decision table: expected %s, validate_args gave %s for %s" % (j["expected"], j["observed"], json.dumps(j["config"], sort_keys=True)))
+    return {"configurations": len(cfgs), "validated": sum(v.distinct for v in vals), "mismatches": len(mism),
+            "design_facts_checked": ["AcceptedSane", "NeitherUnreachable", "RerunNeedsBatchZero"]}
+
+
 def run(tier, seed, selftest=False, replay=None):
     t0 = time.time()
     T = lambda what: os.environ.get("VERIF_VERBOSE") and print("[c17] %s at %.1fs" % (what, time.time() - t0), flush=True)
@@ -48,6 +65,8 @@ def run(tier, seed, selftest=False, replay=None):
         return selftest_run(write_json(os.path.join(d, "st.json"), {"programs": [p for f in merged[:12] for p in read_json(f)["programs"]]}))
     vals = parallel(validate, merged)
     T("validated")
+    args_info = args_table(d) if not replay else None
+    T("args table")
     verdict = Verdict(PID)
     nprog = nocc = 0
     sample = None
@@ -80,7 +99,7 @@ def run(tier, seed, selftest=False, replay=None):
         "samples": [{"program": sample["id"], "switches": sample["sw"], "first_occurrences": [[o["where"], show(o["t"])] for o in sample["occ"][:6]],
                      "type_parameters": sample["tparams"][:4]}],
         "programs": nprog, "configurations": len(jobs), "generation_failures_skipped": skipped[:10],
-        "states": sum(v.distinct for v in vals), "checker_cmd": "sw_exec.py ; tlc HSwitchesTrace",
+        "args_decision_table": args_info, "states": sum(v.distinct for v in vals), "checker_cmd": "sw_exec.py ; tlc HSwitchesTrace",
     }, time.time() - t0, len(verdict.violations),
         ["programs are sampled by seed (exploration), each one is checked completely",
          "provenance of a projection = name of the routine that constructed the WildCardType object"])
